@@ -9,7 +9,8 @@ Line driver for C20.  Input lines (`<cfg>` has no blanks, fields separated by `.
   <cfg> upto <n> <seed>      every schedule if there are at most n of them, else n distinct random ones
   <cfg> one <sched>          the given schedule (digits = thread indices)
 
-cfg = `f<0|1>.e<0|1>.<thread>.<thread>…`, thread = `R` (requester), `K` (requester through the notifier
+cfg = `f<0|1>.e<0|1>.<thread>.<thread>…`, `x<0|1|2>` = the creator returns Ok / returns Err / panics;
+thread = `R` (requester), `K` (requester through the notifier
 clone the creator kept), `F0`/`F1` (`set_fast_reload`), `C0`/`C1` (`set_callback(|| b)`) or `Ac<cb>x<fails><script>` with
 script letters `r` (request_reload), `t`/`u` (set_fast_reload true/false); `f1` = fast reload switched on
 before any thread starts; `e1` = enumerate only schedules in which `request_reload` returns right after
@@ -47,7 +48,7 @@ def parseThread (s : String) : Option Thread :=
   | ['C', '1'] => some (.cbIdle true)
   | 'A' :: 'c' :: c :: 'x' :: x :: rest =>
     match parseScript rest with
-    | some sc => some (.acqIdle { cb := c == '1', fails := x == '1', script := sc })
+    | some sc => some (.acqIdle { cb := c == '1', fails := x == '1', panics := x == '2', script := sc })
     | none => none
   | _ => none
 
@@ -102,8 +103,10 @@ structure Trk where
 def accStep (σ σ' : State) (i : Nat) (a : Trk) : Trk :=
   let k := a.sched.length
   let b := if σ'.creates != σ.creates then
-      let fails := match σ.cur with | some c => c.cfg.fails | none => false
-      s!"{σ'.creates}@{k}{if fails then "f" else ""}" :: a.builds
+      let mark := match σ.cur with
+        | some c => if c.cfg.panics then "p" else if c.cfg.fails then "f" else ""
+        | none => ""
+      s!"{σ'.creates}@{k}{mark}" :: a.builds
     else a.builds
   { sched := i :: a.sched, points := code (pointName σ' i) :: a.points, builds := b }
 
@@ -123,7 +126,7 @@ def finish (c : Cfg) (σ : State) (a : Trk) : String :=
     | some (Thread.acqIdle _) =>
       match res.find? (fun p => p.1 == i) with
       | some p => some s!"{i}:{p.2}"
-      | none => some s!"{i}:err"
+      | none => some (if σ.panicTids.contains i then s!"{i}:panic" else s!"{i}:err")
     | _ => none
   let alldone := (List.range c.n).all fun i => match σ.threads[i]? with
     | some .acqDone | some .reqDone | some .fastDone | some .cbDone => true | _ => false
